@@ -22,17 +22,39 @@ TECHNIQUE = {
 }
 LEVEL_TEXT = {
     "C01": "Every full-frame entry point of all 27 trait drivers (both 2.13in variants) is executed against an executable controller model for byte-sweep / constant / position-coded frames and pixel groups through the Display aliases; all wire bytes, RAM bytes and write counters are compared. Exploration is the right level: the quantifier (all contents) is sampled so that every byte position sees every value (thorough) and every pixel of every rotation is drawn.",
+    "C02": "All protocol-respecting histories up to length 2 (quick) / 3 plus seeded length 4 (thorough) over a 15-30 symbol alphabet per panel are executed and the probe update is compared byte for byte (content and write counters) with the same update on a fresh driver. The quantifier is over histories, so bounded-exhaustive exploration with failure minimisation is the fitting level.",
+    "C04": "Every command/parameter transfer and the ends plus seeded interior points of every bulk burst of every operation (fresh and after a state-changing predecessor) is failed once; error identity, silence after the failure, absence of panics and recoverability are observed on the real driver. This is fault enumeration over crash points, exhaustive over indices on the three smallest panels in the thorough tier.",
+    "C05": "The drivers are run against a BUSY generator in datasheet polarity for every operation pair and every busy-duration tuple of the first three episodes (0..7 polls), under up to four idle-delay settings; violations are detected online inside the controller model and by a poll-budget bound, so termination is decided on logical steps.",
+    "C06": "Every partial entry point is executed over window grids (exhaustive on the smallest panel in the thorough tier, all aligned x/width elsewhere, seeded windows) with pre-loaded RAM; the decoded window, every RAM byte and every write counter are checked.",
+    "C07": "clear_frame is executed for every background colour after every history of length 0..1 (quick) / 0..2 (thorough); write counters, wire uniformity and a twin-driver pixel comparison decide the clauses.",
+    "C08": "sleep/wake_up are executed between every prefix and suffix of the alphabet (bounded), in repeated cycles and without a preceding sleep; sleep signature, reset pulse, register snapshot and suffix memory effect are compared with construction.",
+    "C09": "Every refresh trigger sent in any history of the C02 bound is judged online against the controller model's power/sleep/init state; the hooked 1in02 power flag is compared with the model after every call.",
     "C10": "All operations of all panels are executed and every SPI transfer is examined; buffer lengths straddling the 4096-byte chunk boundary are swept in both write modes with byte-exact payload comparison.",
     "C11": "new, wake_up (several contexts) and internally re-initialising operations are executed for all panels under four idle-delay settings and the RST/delay/SPI interleaving is checked on the event log.",
+    "C12": "Every buffer-lending history of the C02 bound is executed twice (buffers kept vs scribbled+freed+reallocated) and the wire traces compared; the scribbling run is repeated under AddressSanitizer for all panels at full frame sizes and under Miri for the unsafe driver and the smallest panels.",
+    "C15": "Full-frame and partial writes over window grids concentrated at the 648-column / 492-row seams, with 1-row, 3-row and full pixel buffers on both planes, are demultiplexed per chip from the CS/DC levels sampled at each bus write and compared with an independent tiling oracle; all 32 mode configurations are compared with the datasheet packing table.",
+    "C17": "All sequences up to length 3 (quick) / 4 (thorough) over {select full, select quick, reload, sleep+wake, display, set_refresh} are executed in all three feature builds and every LUT register upload is compared with the measured reference upload of the mode last selected.",
+    "C18": "The constructor and every operation (fresh and after settings-changing predecessors; all length-2 histories in the thorough tier) are executed in all three feature builds and every decoded command is checked against datasheet opcode sets, block arities and the panel geometry.",
 }
 LEVEL_NOTE = {
     "C01": "Trusted: controller RAM addressing semantics in model.rs (window, counters, entry mode, wrap; DTM pointer reset), per-panel primary-plane/encoding table. 12.48in driver covered under C15.",
+    "C02": "Trusted: model addressing semantics; the alphabet/grammar in props/common.rs defines 'protocol-respecting'. Histories longer than the bound are not explored.",
+    "C04": "Trusted: fault injector fails exactly one SpiDevice::write; pin errors are not injected (drivers ignore them by design). 12.48in (SpiBus) not covered here.",
+    "C05": "Trusted: which commands raise BUSY and the polarity per family (datasheets); poll-count time instead of wall time; bound of 64 consecutive idle polls = 'spins'.",
+    "C06": "Trusted: window decoding per controller (inclusive ends, byte vs pixel units, forced low bits) in model.rs.",
+    "C07": "Trusted: primary plane per panel; the Display alias' DrawTarget::clear as definition of 'uniformly painted'.",
+    "C08": "Trusted: deep-sleep signatures per family (3in7 uses the vendor's UC-style tail); register snapshot = last parameters per opcode since the last hardware reset, LUT and RAM commands excluded.",
+    "C09": "Trusted: essential-init opcode sets per panel (panels.rs) and the power model (reset clears, PON sets, POF / deep sleep clear).",
     "C10": "Trusted: HAL mock samples D/C at each transfer; opcode tables in proto.rs. Built for linux target only.",
     "C11": "Trusted: event order in the HAL log equals call order (single-threaded). Durations are the driver's explicit delay calls, not wall time.",
+    "C12": "Trusted: allocator reuse makes scribbled/freed buffers observable natively; ASan / Miri decide independently of reuse. Only executed histories are covered.",
+    "C15": "Trusted: documented chip layout and X mirroring of the two upper chips; the sentinel window block for empty intersections is accepted as the documented off-screen window.",
+    "C17": "Trusted: LUT register opcodes per family; reference uploads are measured from the driver itself ([new; set_lut(Some(m))]).",
+    "C18": "Trusted: opcode sets are the family union plus vendor extras (deliberately permissive); block arities and geometry are the sharp part.",
 }
 DESIGN_REF = {}
 
-CLAIMED = ["C01", "C10", "C11"]
+CLAIMED = ["C01", "C02", "C04", "C05", "C06", "C07", "C08", "C09", "C10", "C11", "C12", "C15", "C17", "C18"]
 
-_WIP = "monitor not finished in this round yet (see DESIGN.md section 5 for the planned monitor); will be claimed when its check is silent on the pinned tree or all alarms are triaged"
-NOT_APPLICABLE = {p: _WIP for p in ["C02", "C03", "C04", "C05", "C06", "C07", "C08", "C09", "C12", "C13", "C14", "C15", "C16", "C17", "C18"]}
+_WIP = "monitor being finished in this round (reference-model monitors for the pure code, DESIGN.md section 5); will be claimed when its check is silent on the pinned tree or all alarms are triaged"
+NOT_APPLICABLE = {p: _WIP for p in ["C03", "C13", "C14", "C16"]}
